@@ -1690,6 +1690,79 @@ func (w *c02tW) mcWithdraw(p *c02tPfx, rid uint32) {
 	w.o.stat("op_mc_withdraw", 1)
 }
 
+// mcBatch: ONE AdjRib.Update call carrying several announcements / withdrawals, with the same
+// (prefix, path-id) key occurring more than once — withdrawn then announced again, announced then
+// withdrawn, announced twice (the second replaces the first), two path ids of one prefix, and the
+// withdrawal of a destination's only path followed by a path for the emptied destination.  The model
+// is fed the same operations one by one: a batch means its elements in order, nothing else.
+func (w *c02tW) mcBatch(ps []*c02tPfx) {
+	n := 2 + w.r.intn(4)
+	batch := make([]*Path, 0, n)
+	type step struct {
+		p   *c02tPfx
+		rid uint32
+		wd  bool
+		ent c02tEnt
+	}
+	steps := make([]step, 0, n)
+	var lastP *c02tPfx
+	var lastRid uint32
+	lastWd := false
+	w.note("batch of %d paths in one AdjRib.Update (ipv4-multicast, Adj-RIB-In only)", n)
+	for i := 0; i < n; i++ {
+		p := ps[w.r.intn(len(ps))]
+		rid := uint32(w.r.pick(0, 1, 2))
+		if lastP != nil && w.r.chance(60) { // the same key again
+			p, rid = lastP, lastRid
+		} else if lastP != nil && w.r.chance(30) { // the same prefix, another path id
+			p = lastP
+		}
+		wd := w.r.chance(40)
+		if p == lastP && rid == lastRid && w.r.chance(70) {
+			wd = !lastWd
+		}
+		if wd {
+			w.note("  batch[%d] withdraw %s rid=%d", i, p.pfx, rid)
+			ap := w.newPathF(bgp.RF_IPv4_MC, p, 1, rid, 0, true)
+			w.o.op("wd 5 %s 1 %d 1", p.tok, rid)
+			batch = append(batch, ap)
+			steps = append(steps, step{p: p, rid: rid, wd: true})
+		} else {
+			w.seq++
+			tag := w.seq
+			rank := w.nextRank(tag)
+			rej := w.r.chance(20)
+			w.note("  batch[%d] announce %s rid=%d tag=%d rejected=%v", i, p.pfx, rid, tag, rej)
+			ap := w.newPathF(bgp.RF_IPv4_MC, p, 1, rid, rank, false)
+			ap.SetRejected(rej)
+			w.meta[ap] = c02tMeta{1, tag, rid, uint32(rank >> 32), w.curAttr}
+			w.input("AdjRib.Update", fmt.Sprintf("batched multicast announcement %s rid=%d tag=%d", p.pfx, rid, tag), ap, true)
+			rj := 0
+			if rej {
+				rj = 1
+			}
+			w.o.op("ann 5 %s 1 %d %d %d %d %d 0", p.tok, rid, rank, tag, rj, w.curAttr)
+			batch = append(batch, ap)
+			steps = append(steps, step{p: p, rid: rid, ent: c02tEnt{src: 1, rid: rid, tag: tag, rank: rank, rej: rej}})
+		}
+		lastP, lastRid, lastWd = p, rid, wd
+	}
+	w.adj.Update(batch)
+	for _, st := range steps {
+		if st.wd {
+			w.wantDel(5, st.p, 1, st.rid, true)
+		} else {
+			w.wantPut(5, st.p, st.ent, true)
+		}
+	}
+	w.recheck()
+	w.o.stat("op_mc_batch", 1)
+	w.o.stat("op_mc_batch_paths", n)
+	for _, st := range steps {
+		w.askGet(5, st.p)
+	}
+}
+
 // withdrawals produced by a partial Adj-RIB-In operation go on to the Loc-RIB (IPv4 / IPv6 unicast only)
 func (w *c02tW) propagate(what string, wds []*Path) {
 	for _, wd := range wds {
@@ -2015,7 +2088,9 @@ func (w *c02tW) randomHistory(n int) {
 					}
 				}
 			}
-			if l := w.want[5][q.show]; len(l) > 0 && w.r.chance(60) {
+			if w.r.chance(35) {
+				w.mcBatch([]*c02tPfx{q, w.pool[4][w.r.intn(len(w.pool[4]))]})
+			} else if l := w.want[5][q.show]; len(l) > 0 && w.r.chance(60) {
 				w.mcWithdraw(q, l[w.r.intn(len(l))].rid)
 			} else {
 				w.mcAnnounce(q, rid, w.r.chance(25))
